@@ -25,7 +25,7 @@ LEVEL = "translation_validation"
 MOD = "pv.props.c07"
 
 VARIANTS = ["all_stored", "all_subst", "all_inlined", "alternate", "random0", "random1", "random2", "named", "user_tags",
-            "stored_reductions", "subst_in_reduction", "materialize_with_mpms", "stored_output_copy", "tagged_inputs"]
+            "stored_reductions", "subst_in_reduction", "materialize_with_mpms", "stored_output_copy", "tagged_inputs", "assume_nonneg"]
 SYM_VARIANTS = ["prefix_sizeparam_stored", "prefix_sizeparam_subst", "all_stored", "alternate"]
 
 
@@ -46,7 +46,7 @@ def _nodes_in_order(dag):
             and not shape_arith(n)]
 
 
-def tagger(variant: str, seed: int):
+def tagger(variant: str, seed: int, nonneg=()):
     import pytato as pt
     from pytato.tags import ImplInlined, ImplStored, Named, PrefixNamed
     from pytato.target.loopy import ImplSubstitution
@@ -60,6 +60,17 @@ def tagger(variant: str, seed: int):
             return pt.make_dict_of_named_arrays({
                 k: (dag[k].expr.tagged(ImplStored()) if not isinstance(dag[k].expr, pt.array.InputArgumentBase)
                     else dag[k].expr) for k in dag.keys()})
+        if variant == "assume_nonneg":
+            # the assumption tag on exactly those index arrays that ARE non-negative (declared by the program): a true
+            # assumption must not change any value -- in particular not the wrap-around of the other index arrays
+            from pytato.tags import AssumeNonNegative
+            names = set(nonneg)
+
+            def g(n):
+                if isinstance(n, pt.array.InputArgumentBase) and getattr(n, "name", None) in names:
+                    return n.tagged(AssumeNonNegative())
+                return n
+            return pt.transform.map_and_copy(dag, g)
         if variant == "tagged_inputs":
             # implementation / user tags on the *inputs* (placeholders, wrapped data), also where an input is
             # itself an output
@@ -132,7 +143,7 @@ def tagged_job(prog: str, variant: str, seed: int = 0) -> JobOut:
         return JobOut(declined=f"untagged program does not generate (C01's subject): {type(e).__name__}: {e}")
     pre = f"{prog}/{variant}"
     try:
-        G = generate(P, transform_dag=tagger(variant, seed))
+        G = generate(P, transform_dag=tagger(variant, seed, P.nonneg))
     except Exception as e:  # noqa: BLE001
         import traceback
         return JobOut(sides=[Side(f"{pre}/tagged-variant-generates", False,
@@ -163,7 +174,7 @@ def tagged_job(prog: str, variant: str, seed: int = 0) -> JobOut:
             r = ref_for(alg)[k]
             return lambda idx: r.at(idx)
         outputs[k] = (np.asarray(v).shape, mk_a, mk_b)
-    obs = value_obs(pre, outputs, kinds, G.data, nsk=8, timeout=180,
+    obs = value_obs(pre, outputs, kinds, G.data, nsk=8, timeout=180, nonneg=P.nonneg,
                     info={"program": prog, "tag assignment": variant, "temporaries+substitutions (tagged)": n_tmp1,
                           "temporaries (untagged)": n_tmp0})
     for ob in obs:
@@ -246,11 +257,13 @@ def jobs(tier: str, seed: int):
         keep = {"reduce_of_expr", "sharing", "matmul_chain", "stack_of_reductions", "reshape_cf", "adv_index", "where_idx",
                 "roll_transpose", "einsum_forms", "data_wrappers", "mixed_pipeline", "reductions", "creation", "stack_concat",
                 "out_is_input", "csr_matmul", "loopy_calls", "loopy_call_scalar_binding", "handmade_index_lambda",
-                "like_dtype_override", "zero_size_reduction", "adv_index_4d", "csr_computed"}
+                "like_dtype_override", "zero_size_reduction", "adv_index_4d", "csr_computed", "adv_index_nonneg"}
         progs = [p for p in progs if p.name in keep or p.name.startswith("g2_")]
     J = []
     for P in progs:
         for v in VARIANTS:
+            if v == "assume_nonneg" and not P.nonneg:
+                continue
             J.append(Job(MOD, "tagged_job", {"prog": P.name, "variant": v, "seed": seed}, jid=f"{P.name}/{v}",
                          hard_timeout=1200))
     symprogs = C.SYM_CORPUS if th else [p for p in C.SYM_CORPUS if p.name in ("sym_elementwise", "sym_reduce_static", "sym_einsum",
@@ -267,7 +280,7 @@ def jobs(tier: str, seed: int):
                        "untagged NumPy meaning (CrossHair/z3).",
         "bounds": {"programs": [p.name for p in progs], "tag assignments per program": VARIANTS,
                    "inputs / element indices": "all"},
-        "outside": ["AssumeNonNegative (an assumption tag, not a neutral one)",
+        "outside": ["AssumeNonNegative on arrays that are NOT non-negative (a false assumption)",
                     "loopy's own code generation from the TranslationUnit"],
         "stubs": ["LoopyTarget subclass selecting loopy's C target (no OpenCL)"],
     }
